@@ -211,6 +211,30 @@ def _chain1d(ctx, d, cls, corr):
     if any(t1 > t2 + 1e-15 * max(t2, 1e-300) for t1, t2 in zip(ths, ths[1:])):
         ctx.fail("oracle", "c19.theta_monotone", d, {"dim": 1, "levels": pts, "thetas": ths}, cls=cls)
         return
+    # S4: one pricer object across in-place changes of its model (first the closed forms are used, then the model is restricted
+    #     to the grid's truncation - the model the statement speaks about -, then a parameter is changed and re-initialised):
+    #     what the used pricer reports must be what a fresh pricer on the same model reports
+    m2 = copy.deepcopy(model)
+    cf2 = CFLevyModel(m2)
+    used = [float(cf2.survival_probability(a, 1.0)), float(cf2.cds_spread(a, 0.4))]
+    steps = [("truncate_levy_measure", lambda: m2.truncate_levy_measure(truncations=g.truncations[0]))]
+    lm2 = m2.levy_model if hasattr(m2, "levy_model") else m2
+    prm = getattr(lm2, "parameters", None)
+    if prm is not None and hasattr(prm, "intensity"):
+        def bump():
+            prm.intensity = prm.intensity * 2
+            prm.initialisation()
+        steps.append(("parameters.intensity doubled + initialisation()", bump))
+    for name, change in steps:
+        change()
+        now = [float(cf2.survival_probability(a, 1.0)), float(cf2.cds_spread(a, 0.4))]
+        fresh_cf = CFLevyModel(m2)
+        fresh = [float(fresh_cf.survival_probability(a, 1.0)), float(fresh_cf.cds_spread(a, 0.4))]
+        ctx.branches["c19.chain1d:pricer_history"] += 1
+        if now != fresh:
+            ctx.fail("oracle", "c19.pricer_history", d, {"after": name, "used_pricer": now, "fresh_pricer_on_the_same_model": fresh,
+                                                       "before_the_change": used, "level": a}, cls=cls)
+            return
     if corr:
         # theta of the truncated model: the interval TruncatedLevyMeasure integrates over, and the value
         out = ctx.lean(f"theta1 {w(l)} {w(r)} {w(a)} {w(l)} {w(a)} {w(th_clip)}").split(" ")
@@ -446,6 +470,19 @@ def _chainnd(ctx, d, cls, corr):
                 ctx.fail("oracle", "c19.theta_monotone", d, {"dim": dim, "levels": levels, "raised": up, "theta": th_full,
                                                            "theta_raised": th_up}, cls=cls)
                 return
+    # S4: one copula pricer object across an in-place truncation of its model vs a fresh pricer on the same model
+    cm2 = copy.deepcopy(cm)
+    cfu = CFLevyCopulaModel(cm2)
+    used0 = [float(cfu.survival_probability(levels, 1.0)), float(cfu.first_to_default_par_spread(levels, 0.4))]
+    cm2.truncate_levy_measure(truncations=g.truncations)
+    now = [float(cfu.survival_probability(levels, 1.0)), float(cfu.first_to_default_par_spread(levels, 0.4))]
+    fresh_cf = CFLevyCopulaModel(cm2)
+    fresh = [float(fresh_cf.survival_probability(levels, 1.0)), float(fresh_cf.first_to_default_par_spread(levels, 0.4))]
+    ctx.branches["c19.chainNd:pricer_history"] += 1
+    if now != fresh:
+        ctx.fail("oracle", "c19.pricer_history", d, {"after": "truncate_levy_measure", "used_pricer": now, "fresh_pricer_on_the_same_model": fresh,
+                                                   "before_the_change": used0, "levels": levels}, cls=cls)
+        return
     if corr:
         if not theta_corr(ctx, d, cls, cm, levels, "untruncated model"):
             return
